@@ -11,6 +11,10 @@ CHECKS = {
    technique="bounded-exhaustive enumeration of feature-subset lattice, escape-channel product and re-saved corpus; oracle = independent Python OPC/SpreadsheetML validator + decoder",
    text="Every package of the feature lattice (2^11 subsets thorough, size<=2 and co-size<=1 quick) x writers x macro, every escape channel x special string, and every re-saved corpus file is validated and decoded by an independent stdlib-only Python reader and compared with the in-memory model.",
    note="Trusted: pyref/xlsx_ref.py (zipfile + expat) as the independent reader; it implements the subset of ECMA-376 named in DESIGN 2.5."),
+ "C03": dict(level="exploration", engine="E1+P", design="3 C03",
+   technique="bounded-exhaustive enumeration of a grammar-enumerating xlsx generator (cell encodings, shared-formula blocks, entity channels, optional attributes, style resolution) plus the corpus; three-way oracle generator intent == independent decoder == library dump",
+   text="Every file of the enumerating generator (867 files: 15 payloads x 27 encodings, 756 shared-formula blocks with every child offset, 70 attribute-channel cases, 12 optional-attribute cases, 14 style-resolution cases) and every corpus file is loaded by the library and compared with what an independent stdlib-only Python decoder (and, for generated files, the generator's own record of what it encoded) says the file means; a disagreement between the two references is a machinery error, never a verdict.",
+   note="Trusted: pyref/xlsx_gen.py and pyref/xlsx_ref.py agree by construction on every generated file (checked on every run). Producer quirks outside the grammar are outside the alphabet."),
  "C04": dict(level="model_checking", engine="E2", design="3 C04",
    technique="exhaustive enumeration of histories over {save+reload, single-cell edit} (depth <=3) from every corpus file and every generated workbook; oracle = full normalised dump equality across generations, edit locality, save-twice equality",
    text="From every initial state (corpus file, lattice workbook, channel workbook): S, SS, SSS generations must be a fixed point and equal the original under the stated normalisations; every single-cell edit (4 kinds, every cell up to a stated cap + last + fresh position) followed by save+reload may change only that cell and its row/column entry; two saves of one workbook have the same parts and reload to the same content.",
